@@ -31,28 +31,48 @@ type concReplay struct {
 	AE      bool     `json:"ae"`
 }
 
+// blockedStacks: a goroutine dump of this (child) process, reduced to the request handlers that sit waiting
+// for a lock of the stores, one representative per distinct call path.
 func blockedStacks() string {
-	buf := make([]byte, 4<<20)
+	buf := make([]byte, 8<<20)
 	n := runtime.Stack(buf, true)
+	seen := map[string]bool{}
 	var keep []string
 	for _, g := range strings.Split(string(buf[:n]), "\n\n") {
-		if !strings.Contains(g, "practable/relay/internal/") {
+		if !(strings.Contains(g, "sync.(*Mutex).Lock") || strings.Contains(g, "sync.(*RWMutex).") || strings.Contains(g, "[chan send") || strings.Contains(g, "[select")) {
 			continue
 		}
-		if strings.Contains(g, "sync.(*Mutex).Lock") || strings.Contains(g, "sync.(*RWMutex)") || strings.Contains(g, "semacquire") || strings.Contains(g, "chan send") || strings.Contains(g, "chan receive") {
-			if strings.Contains(g, "internal/access") || strings.Contains(g, "internal/deny") || strings.Contains(g, "internal/ttlcode") {
-				keep = append(keep, g)
+		if !(strings.Contains(g, "relay/internal/deny.") || strings.Contains(g, "relay/internal/ttlcode.") || strings.Contains(g, "relay/internal/access.")) {
+			continue
+		}
+		if !strings.Contains(g, "Handler") {
+			continue // only request handlers, not the servers' own service loops
+		}
+		// identity of the call path: the relay-internal function names on the stack
+		var path []string
+		lines := strings.Split(g, "\n")
+		for _, ln := range lines {
+			if strings.HasPrefix(ln, "github.com/practable/relay/internal/") && !strings.Contains(ln, "restapi") {
+				if k := strings.LastIndex(ln, "("); k > 0 {
+					ln = ln[:k]
+				}
+				path = append(path, strings.TrimPrefix(ln, "github.com/practable/relay/internal/"))
 			}
 		}
+		id := strings.Join(path, " <- ")
+		if seen[id] {
+			continue
+		}
+		seen[id] = true
+		if len(lines) > 16 {
+			lines = lines[:16]
+		}
+		keep = append(keep, "["+id+"]\n"+strings.Join(lines, "\n"))
 	}
 	if len(keep) > 6 {
 		keep = keep[:6]
 	}
-	s := strings.Join(keep, "\n\n")
-	if len(s) > 9000 {
-		s = s[:9000]
-	}
-	return s
+	return strings.Join(keep, "\n\n")
 }
 
 func concurrentPhase(ae bool, millis int, res *lib.Result) {
